@@ -652,3 +652,10 @@ Lemma read_file_written_cfg : forall E, env_ok E -> forall c ls bo inl, c = std_
   Forall (fun v => writable E v = true) vs ->
   read_file E c ls bo inl (file_text E sep vs ++ trail) = Ok (map (asarray E) vs).
 Proof. intros E HE c ls bo inl -> -> -> ->. apply read_file_written. exact HE. Qed.
+
+Lemma read_twice_written_cfg : forall E, env_ok E -> forall c fresh, c = std_cfg -> fresh = true ->
+  forall v inl, writable E v = true -> read_twice E c fresh inl (write E c v) = Ok (asarray E v).
+Proof.
+  intros E HE c fresh -> -> v inl Hw. unfold read_twice. rewrite (rs_written E HE v inl Hw). reflexivity.
+Qed.
+
